@@ -91,7 +91,7 @@ func getEigenvalues(eigenvalues Vector, h Matrix) {
       i++
     }
   }
-  if h.At(n-1,n-2).GetFloat64() == 0.0 {
+  if n == 1 || h.At(n-1,n-2).GetFloat64() == 0.0 {
     eigenvalues.At(n-1).Set(h.ConstAt(n-1, n-1))
   }
 }
@@ -112,6 +112,10 @@ func getEigenvector(eigenvector Vector, eigenvalue ConstScalar, h, u Matrix, b V
     backSubstitution.Run(h.Slice(0,k,0,k), b.Slice(0,k), &inSitu)
   }
   eigenvector.At(k).SetFloat64(1.0)
+  // clear the remaining entries (the buffer may be re-used)
+  for i := k+1; i < eigenvector.Dim(); i++ {
+    eigenvector.At(i).SetFloat64(0.0)
+  }
   // add eigenvalue to diagonal
   for i := 0; i < k; i++ {
     h.At(i,i).Add(h.ConstAt(i,i), eigenvalue)
